@@ -48,12 +48,13 @@ func (db *db) set(id int, key string, tree *Tree) {
 	} else {
 		db.tpl = append(db.tpl, &tpl)
 		idx = len(db.tpl) - 1
-		if id >= 0 {
-			db.idxID[id] = idx
-		}
-		if key != "-1" {
-			db.idxKey[key] = idx
-		}
+	}
+	// Index both names on both paths: a reused slot may have been found by only one of them.
+	if id >= 0 {
+		db.idxID[id] = idx
+	}
+	if key != "-1" {
+		db.idxKey[key] = idx
 	}
 	if _, ok := db.idxHash[tree.hsum]; !ok {
 		db.idxHash[tree.hsum] = idx
